@@ -28,7 +28,7 @@ structure Sim where
 
 def compileProg (udp : Bool) (limit epLimit : Nat) (prog : String) : List Act :=
   (prog.splitOn "+").foldl (fun acc st =>
-    if st == "r" || st == "" then acc
+    if st == "r" || st == "" || st == "a" then acc
     else if st == "p" then acc ++ pingProg udp
     else
       let k := (st.drop 1).toString.toNat?.getD 0
@@ -177,6 +177,15 @@ def applyOp (udp : Bool) (limit epLimit : Nat) (sim : Sim) (f : List String) : O
     let obs := (prog.splitOn "+").filterMap (fun st => if st.startsWith "o" then (st.drop 1).toString.toNat? else none)
     some ({ sim with s := { s with inbox := s.inbox ++ [⟨m, .req (compileProg udp limit epLimit prog)⟩] },
                      obsExch := obs ++ sim.obsExch }, [])
+  | ["arrivem", m, prog, _, _] => do
+    let m ← m.toNat?
+    some ({ sim with s := { s with inbox := s.inbox ++ [⟨m, .req (compileProg udp limit epLimit prog)⟩] } }, [])
+  | ["resp2", k] => do
+    -- the response, and behind it a second message under the same token that belongs to nobody: it reaches the handler
+    let k ← k.toNat?
+    if sim.everSent.contains k then
+      some ({ sim with s := { s with inbox := s.inbox ++ [⟨sim.nextId, .resp k⟩, ⟨7000 + k, .req []⟩] }, nextId := sim.nextId + 1 }, [])
+    else some (sim, [s!"early{k}"])
   | ["burst", ids] =>
     let ms := (ids.splitOn "-").filterMap (·.toNat?)
     some ({ sim with s := { s with inbox := s.inbox ++ ms.map (fun m => ⟨m, .req []⟩) } }, [])
@@ -228,7 +237,7 @@ def model (line : String) : String :=
       let f := op.splitOn ":"
       let n0 := sim.s.log.length
       -- the harness lets one millisecond of virtual time pass before every arrival / outside call
-      let sim := if ["arrive", "call", "burst", "watch", "note"].contains (f.headD "") || (udp && f.headD "" == "empty") then sleepFor sim 1 else sim
+      let sim := if ["arrive", "arrivem", "call", "burst", "watch", "note"].contains (f.headD "") || (udp && f.headD "" == "empty") then sleepFor sim 1 else sim
       match applyOp udp limit epLimit sim f with
       | some (sim1, pre) =>
         let sim2 := match f with
@@ -253,7 +262,7 @@ def classify (line : String) : String :=
     let sim0 : Sim := { s := init (q.toNat?.getD 0) udp [] }
     let sim := ops.foldl (fun (sim : Sim) op =>
       let f := op.splitOn ":"
-      let sim := if ["arrive", "call", "burst", "watch", "note"].contains (f.headD "") || (udp && f.headD "" == "empty") then sleepFor sim 1 else sim
+      let sim := if ["arrive", "arrivem", "call", "burst", "watch", "note"].contains (f.headD "") || (udp && f.headD "" == "empty") then sleepFor sim 1 else sim
       match applyOp udp limit epLimit sim f with
       | some (sim1, _) => (match f with
           | ["sleep", ms] => sleepFor sim1 (ms.toNat?.getD 0)
@@ -281,6 +290,9 @@ def history (udp : Bool) (ops : List String) (segs : List String) : Option (List
     | ["arrive", m, prog] =>
       let m ← m.toNat?
       hist := hist ++ [.arrive m (prog != "r")]
+    | ["arrivem", m, prog, _, _] =>
+      hist := hist ++ [.arrive (← m.toNat?) (prog != "r" && prog != "a")]
+    | ["resp2", k] => if !early then hist := hist ++ [.answered (← k.toNat?), .arrive (7000 + (← k.toNat?)) false]
     | ["burst", ids] =>
       for m in (ids.splitOn "-").filterMap (·.toNat?) do
         hist := hist ++ [.arrive m false]
